@@ -67,7 +67,7 @@ CLAIMS = {
              "on that information (the parameter in assignValue, a member set from it in the list loops of the "
              "multi-value destinations), canonical key for constraint matching, every successful assign() makes hasValue() "
              "true (mandatory check), value constraints relate only values that "
-             "were given (compareValue() reachable only through hasValue()-true edges of both arguments); the complete key of a sub-group argument is not pre-empted by a normal argument it abbreviates (lookup table over both key containers, shared with C05-R5); the repeatable built-in arguments (end-of-values marker, listing arguments) are defined without upper cardinality; the cursor invariant of the tokeniser (every word is analysed from its first character, shared with C04-R6); after a sub-group argument the main handler continues with the first word the sub-group handler did not consume (table over words x consumed words). The general statement is not "
+             "were given (compareValue() reachable only through hasValue()-true edges of both arguments); the complete key of a sub-group argument is not pre-empted by a normal argument it abbreviates (lookup table over both key containers, shared with C05-R5); the repeatable built-in arguments (end-of-values marker, listing arguments) are defined without upper cardinality; the cursor invariant of the tokeniser (every word is analysed from its first character, shared with C04-R6); after a sub-group argument the main handler continues with the first word the sub-group handler did not consume (table over words x consumed words); the value-list check compares with every listed value (no early exit) and refuses exactly the values that are not listed. The general statement is not "
              "decidable statically and is not claimed.",
         note="trusts clang AST/CFG; boost::lexical_cast converts every representable value; interaction of arbitrary "
              "checks/formats/constraints is not decided", also=("engine B (boolshape.py)",),
@@ -90,7 +90,7 @@ CLAIMS = {
              "outside the program: a loop driven by a stream read must end at the first failed read (end of file or "
              "error), and for the element loop over an argument vector: every step of the argument iterator is proved to move "
              "the cursor forward (word index, then character position; the nested step on a lone '--' by induction). "
-             "Termination of the remaining loops is NOT decided. Downcast provenance: every pointer that a Handler member static_casts to the sub-group argument class comes, on every reaching definition, out of the container that only receives sub-group objects (or is null); container.erase( it) with the iterator of a search only over an edge on which it != end() is known; a noexcept repository function calls (outside try) no repository function from which an exception can escape.",
+             "Termination of the remaining loops is NOT decided. Downcast provenance: every pointer that a Handler member static_casts to the sub-group argument class comes, on every reaching definition, out of the container that only receives sub-group objects (or is null); container.erase( it) with the iterator of a search only over an edge on which it != end() is known; a noexcept repository function calls (outside try) no repository function from which an exception can escape; smart-pointer members of the argument handling are held by value (shared objects stay alive under their writers).",
         note="trusted base: clang front end, extractor, cv/lin.py + cv/bounds.py and its models of "
              "strlen/strcpy/new[]/std::vector/std::string; argc >= 1, argv words are C strings shorter than 2 GiB, "
              "argv[argc] is null",
@@ -142,7 +142,7 @@ CLAIMS = {
              "is written by no function that runs once per chunk of words, so a value list continues across file "
              "lines / environment / argv exactly as across argv words; the line loop of the argument file runs for every "
              "line the read delivers (incl. an unterminated last line); the sub-group handler a word is dispatched to "
-             "evaluates it in the read mode of the dispatching handler; both constructors of ArgString2Array hand the word list of the splitter to the argv array unmodified (no word removed, added or rewritten); the value stored into a scalar destination never depends on its previous content (a flag stores the configured value: a flag from a file given again on the command line stays set). Other quoting disciplines and "
+             "evaluates it in the read mode of the dispatching handler; both constructors of ArgString2Array hand the word list of the splitter to the argv array unmodified (no word removed, added or rewritten); the value stored into a scalar destination never depends on its previous content (a flag stores the configured value: a flag from a file given again on the command line stays set); the environment variable that is read is the one the application named (the name is derived / upper-cased only when none was set). Other quoting disciplines and "
              "value equality between sources are not decided.",
         note="trusts clang AST/CFG; std::string append/clear semantics; round trip claimed for backslash escaping only",
         also=("engine A (cfg.py)", "engine C (lin.py, bounds.py)"),
@@ -174,7 +174,7 @@ CLAIMS = {
              "touch no written, mutable object with static storage duration unless a lock on a static mutex is held; "
              "no non-reentrant libc call; per-handler constraint container; no function-local static on those paths is "
              "initialised from a parameter, a local or the object (a process-wide memo of the first caller's data "
-             "is not a race but breaks 'as if alone'); every call from a Handler member into the process-wide group registry is guarded by the membership flag (three frozen, reasoned exceptions); no function that sets process-wide state (locale, environment, working directory, handlers) on handler paths; no function-local static (smart) pointer to a non-const object is handed out. Holds for every schedule because it is a "
+             "is not a race but breaks 'as if alone'); every call from a Handler member into the process-wide group registry is guarded by the membership flag (three frozen, reasoned exceptions); no function that sets process-wide state (locale, environment, working directory, handlers) on handler paths; no function-local static (smart) pointer to a non-const object is handed out; no written process-wide object on handler paths at all, lock-protected or not. Holds for every schedule because it is a "
              "statement about all paths of all reachable functions; it does not execute interleavings.",
         note="trusts clang AST/CFG, the extractor, thread-safety of boost/libstdc++ internals; std::function targets "
              "supplied by users are outside the claim",
@@ -216,7 +216,7 @@ CLAIMS = {
              "possible digit count, the numeric value kept symbolic as a digit stream, yielding the exact cell "
              "layout, NUL index, returned length and absence of stray writes (P2), negation in the same-width "
              "unsigned type and dispatcher selection by sign and sizeof (P3). 542 obligations, all discharged; "
-             "covers all 2^64 64-bit values, which no enumeration reaches. A division by 10 written as reciprocal multiplication and shift is decided exactly per digit-count class (exact for the class or refuted with a counter example).",
+             "covers all 2^64 64-bit values, which no enumeration reaches. A division by 10 written as reciprocal multiplication and shift is decided exactly per digit-count class (exact for the class or refuted with a counter example); the conversion units hold no non-const function-local static and no state change inside assert().",
         text_extra=" The inverse conversion stringTo<T>() is decided by a table rule: every integral specialisation parses with a std::sto* function whose result range covers T.",
         note="trusted base: clang front end, the extractor and the symbolic interpreter cv/digits.py; -INT_MIN "
              "wrap-around as produced by the repository's compilers; the text-to-value direction (std::strto*) "
@@ -230,7 +230,7 @@ CLAIMS = {
              "shapes of Filters::pass (conjunction), Logging::log, Log::message, ILogDest::handleMessage "
              "(exactly-once delivery under the filters), completeness/distinctness of the class and level name "
              "tables, single-writer and no-reset rules for the duplicate policy; the class-list filter sets exactly the bit "
-             "of every class it names and pass() returns exactly the bit of the message's class; a level filter whose verdict does not depend on the message level / the configured level is a violation; the macro pre-check (discard_by_level) asks Filters::processLevel of the log or a sound refinement (no discard from inside the loop over the destinations).",
+             "of every class it names and pass() returns exactly the bit of the message's class; a level filter whose verdict does not depend on the message level / the configured level is a violation; the macro pre-check (discard_by_level) asks Filters::processLevel of the log or a sound refinement (no discard from inside the loop over the destinations); every filter setter reaches the duplicate policy (checkSetFilter) on every normal path.",
         note="trusts clang AST/CFG; the full (level x class x filter-history) table as executed is not decided",
         also=("engine B (boolshape.py)", "engine E (effects.py)"),
         technique="static analysis: enum-capacity facts, truth tables over orderings, CFG loop-shape rules"),
@@ -243,7 +243,7 @@ CLAIMS = {
              "check -> write -> account and close -> roll -> open orderings by dominance; after every rollFiles() call "
              "openCheck() sees the new file before the function returns; roll loops shift "
              "generation n-1 to n with n descending; files::Handler<P, L>::message() holds a named lock guard on its lock "
-             "member around writeMessage(); filename::Builder renders the generation number completely and unmodified (every generation has its own name). Breaking any of these breaks the property for some history; "
+             "member around writeMessage(); filename::Builder renders the generation number completely and unmodified (every generation has its own name); the OS file layer passes rename / remove to the C library unconditionally with the arguments in place. Breaking any of these breaks the property for some history; "
              "histories, restarts and crash points themselves are not decided.",
         note="trusts clang AST/CFG and constant folding; libstdc++ openmode bit values; std::endl writes one byte",
         also=("engine B (boolshape.py)",),
@@ -368,7 +368,7 @@ CLAIMS = {
         level="other", engine="engine E (effects.py)",
         text="Static lockset/dominance and initialisation-order analysis of every Singleton<T>::instance/reset and "
              "ManagedThread constructor instantiation: decides the structural necessary conditions (every access to "
-             "the shared pointer under the static mutex, one null-tested construction site, flag initialised before "
+             "the shared pointer under the static mutex, one null-tested construction site, constant-initialised static members, flag initialised before "
              "the thread starts, atomic flag set/cleared around the user function, isActive() reports that flag and consults "
              "nothing else, the destructor joins on every path on which the handle is joinable - whatever the flag says - and never detaches) for all schedules at once; it does "
              "not execute any interleaving.",
